@@ -424,3 +424,19 @@ where
 {
     FlatEx::<T>::parse(text)
 }
+
+/// Re-exports of private kernels for out-of-tree verification harnesses (feature `verif_hooks`,
+/// off by default, not part of the API).
+#[cfg(feature = "verif_hooks")]
+#[doc(hidden)]
+pub mod verif_hooks {
+    pub use crate::expression::flat::verif_hooks::*;
+    pub use crate::expression::verif_hooks::*;
+    pub use crate::operators::{BinOpWithIdx, OperateBinary, UnaryFuncWithIdx, UnaryOp};
+    pub use crate::parser::{
+        check_parsed_token_preconditions, find_parsed_vars, find_var_index, is_numeric_text,
+        is_operator_binary, Paren, ParsedToken,
+    };
+    #[cfg(feature = "partial")]
+    pub use crate::expression::partial::check_partial_index;
+}
